@@ -343,13 +343,21 @@ TICK = 2.0 ** -10       # the initiator's RWT during conversations: dyadic, so v
                         # the fixed 1 s deadline inside Target.send_timeout_extension (1024 ticks) is never reached
 
 
+def rtox_values(rtox, k):
+    """the RTOX values the target application requests before its k-th answer: rtox[k] is an int (0 = none) or a list"""
+    if not rtox or k >= len(rtox):
+        return []
+    v = rtox[k]
+    return [x for x in (v if isinstance(v, (list, tuple)) else [v]) if x > 0]
+
+
 def conversation(cfg, payloads, responses, script, rtox=None, release=True, ini_timeout=8, early=None, ini=None, tgt=None):
     """Activate both sides (fault free), then run a conversation under the fault script.
 
     cfg: dict(brty, did, nad, lri, lrt, brs)    payloads: what the initiator application passes
     to exchange(); responses: what the target application answers to the k-th payload it
-    receives; rtox[k] > 0: the target application requests a time-out extension before it
-    answers the k-th payload.  ini_timeout is the exchange() time-out in units of RWT.
+    receives; rtox[k]: the time-out extension(s) the target application requests before it answers the k-th
+    payload (an int, 0 = none, or a list of values requested one after the other).  ini_timeout is the exchange() time-out in units of RWT.
     ini / tgt: Initiator / Target objects of an earlier conversation (obs['objs']) that are activated again.
     Returns the observation dict.
     """
@@ -398,9 +406,9 @@ def conversation(cfg, payloads, responses, script, rtox=None, release=True, ini_
             obs['tgt'].append('ok ' + (bytes(r).hex() or '-'))
             if k >= len(responses):
                 return
-            if k < len(rtox) and rtox[k] > 0:
+            for x_req in rtox_values(rtox, k):
                 try:
-                    x = link.tgt.send_timeout_extension(rtox[k])
+                    x = link.tgt.send_timeout_extension(x_req)
                     obs['tgt_rtox'].append('none' if x is None else 'ok %02x' % x)
                 except Exception as e:  # noqa
                     obs['tgt_rtox'].append(classify(e))
